@@ -102,6 +102,15 @@ def gen_flags(r, entry, focus):
             a = FLAG_OF[opt](v)
             if a is None:
                 continue
+            # the spellings argparse accepts: `--flag value`, `--flag=value`, an unambiguous abbreviation, `-p0`
+            if len(a) == 2:
+                sp = r.random()
+                if a[0].startswith("--") and sp < 0.3:
+                    a = [a[0] + "=" + str(a[1])]
+                elif a[0].startswith("--") and sp < 0.4 and len(a[0]) > 8 and opt in ("merge_strategy", "input_strategy", "output_strategy", "log_level", "base_url"):
+                    a = [a[0][:-2], a[1]]
+                elif not a[0].startswith("--") and sp < 0.4:
+                    a = [a[0] + str(a[1])]
             flags[opt] = v
             argv += a
     return flags, argv
